@@ -30,17 +30,87 @@ def _norm(vals, norm):
     raise AssertionError(norm)
 
 
-def stop_rules(S, d, lmin, lmax, version, boundary, out_len, norm, ref_kind, cap, pool):
+def _reference(ref_kind, out_len):
+    """Concrete non-zero references: a symbolic one makes the relative error a quotient of two solver variables (nonlinear, z3 times out);
+    the integrand - and with it the result - is arbitrary, so every relative deviation is still covered.  'tiny' is a reference that is
+    not zero but small in absolute terms (integrands scaled by 1e-9): the error is still the RELATIVE deviation."""
+    if ref_kind == 'tiny':
+        return np.array([1e-9, -5e-10, 2e-9][:out_len])
+    return np.array([2.0, -0.5, 4.0][:out_len])
+
+
+def stop_rules_es(S, d, lmin, lmax, version, nrbe, out_len, norm, ref_kind, cap, pool):
+    """Extend-split driver: same goals as stop_rules (scripted error flags per new area)."""
+    from harness import es
+    ES, CELL, GO, G, EC, RO, RC = es.mods()
+    f = lib.make_function(S, 'F', d, out_len)
+    ref = None if ref_kind == 'none' else (np.zeros(out_len) if ref_kind == 'zero' else _reference(ref_kind, out_len))
+    tol = S.real('tol')
+    min_e = S.int('min_evaluations')
+    max_e = S.int('max_evaluations')
+    S.assume(min_e >= 0)
+    S.assume(min_e <= cap)
+    S.assume(max_e >= 0)
+    S.assume(max_e <= cap)
+    sa, op, grid, a, b = es.make_es(S, f, d, (0.0, 1.0), True, version, nrbe, False, False, pool)
+    op.reference_solution = ref
+    sa.norm = norm
+    calls = {'refine': 0, 'log': []}
+    orig_refine = sa.refine
+
+    def counting_refine():
+        calls['refine'] += 1
+        calls['log'].append(len(sa.error_array))
+        return orig_refine()
+
+    sa.refine = counting_refine
+    res = sa.performSpatiallyAdaptiv(lmin, lmax, None, tol=tol, max_evaluations=max_e, min_evaluations=min_e, print_output=False)
+    refinement, scheme, lmax_out, result, n_evals, err_arr, pts_arr, surplus_arr = res[:8]
+    n = len(err_arr)
+    result = [x for x in np.ravel(result)]
+    S.observe('n', n)
+    S.observe('points', [int(p) for p in pts_arr])
+    S.prove(len(pts_arr) == n and len(surplus_arr) == n, 'es:one-history-entry-per-evaluation')
+    S.prove(calls['refine'] == n - 1 and calls['log'] == list(range(1, n)), 'es:refine-exactly-between-evaluations-never-after-the-stop')
+    S.prove(all(int(pts_arr[i]) <= int(pts_arr[i + 1]) for i in range(n - 1)), 'es:point-counts-never-decrease')
+    S.prove(sym_and(*[e >= 0 for e in err_arr]), 'es:errors-non-negative')
+    S.prove(sym_and(*[e >= 0 for e in surplus_arr]), 'es:surplus-errors-non-negative')
+    bens = [o.benefit for o in es.leaves(sa) if o.benefit is not None]
+    S.prove(sym_and(*[b_ >= 0 for b_ in bens]), 'es:benefits-non-negative')
+    stops = []
+    for i in range(n):
+        stops.append(sym_or(sym_and(err_arr[i] <= tol, int(pts_arr[i]) >= min_e), int(pts_arr[i]) > max_e))
+    S.prove(sym_and(*[sym_not(stops[i]) for i in range(n - 1)]), 'es:no-stop-condition-met-before-the-final-evaluation')
+    S.prove(stops[n - 1], 'es:stop-condition-met-at-the-final-evaluation')
+    distinct = len(set(tuple(p) for p in f.eval_log))
+    S.prove(int(pts_arr[-1]) == distinct, 'es:reported-point-count-is-number-of-distinct-evaluations')
+    if ref is not None:
+        if ref_kind == 'zero':
+            want = _norm(result, norm)
+        else:
+            want = _norm([(ref[j] - result[j]) / ref[j] for j in range(out_len)], norm)
+        S.prove(S.eq(err_arr[-1], want), 'es:reported-error-is-deviation-from-reference-in-the-chosen-norm')
+    else:
+        S.prove(S.eq(err_arr[-1], surplus_arr[-1]), 'es:without-reference-the-error-is-the-surplus-error')
+
+
+def stop_rules(S, d, lmin, lmax, version, boundary, out_len, norm, ref_kind, cap, pool, prerun=False):
     SD, GO, G, EC, RO, RC = dw.mods()
     f = lib.make_function(S, 'F', d, out_len)
+    log_start = 0
+    if prerun:
+        # an earlier, unrelated adaptive run used the same Function object (finer start level, one evaluation): the numbers reported by the
+        # run under test must be those of that run alone
+        sa0, op0, _ = dw.make_instance(f, [0.0] * d, [1.0] * d, boundary=True, version=version)
+        op0.validation_set = None
+        sa0.performSpatiallyAdaptiv(lmin, lmax + 1, drv.ScriptedRoundErrors(sa0, d, 0, 1, pool), tol=-1.0, max_evaluations=0, print_output=False)
+        log_start = len(f.eval_log)
     if ref_kind == 'none':
         ref = None
     elif ref_kind == 'zero':
         ref = np.zeros(out_len)
     else:
-        # concrete non-zero reference: a symbolic one makes the relative error a quotient of two solver variables (nonlinear, z3
-        # times out); the integrand - and with it the result - is arbitrary, so every relative deviation is still covered
-        ref = np.array([2.0, -0.5, 4.0][:out_len])
+        ref = _reference(ref_kind, out_len)
     tol = S.real('tol')
     min_e = S.int('min_evaluations')
     max_e = S.int('max_evaluations')
@@ -79,7 +149,7 @@ def stop_rules(S, d, lmin, lmax, version, boundary, out_len, norm, ref_kind, cap
     S.prove(sym_and(*[sym_not(stops[i]) for i in range(n - 1)]), 'no-stop-condition-met-before-the-final-evaluation')
     S.prove(stops[n - 1], 'stop-condition-met-at-the-final-evaluation')
     # truthful numbers
-    distinct = len(set(tuple(p) for p in f.eval_log))
+    distinct = len(set(tuple(p) for p in f.eval_log[log_start:]))
     S.prove(int(pts_arr[-1]) == distinct, 'reported-point-count-is-number-of-distinct-evaluations')
     S.prove(int(pts_arr[-1]) == f.get_f_dict_size(), 'reported-point-count-is-cache-size')
     if ref is not None:
@@ -108,7 +178,7 @@ META = {
                     'tolerance is an unconstrained symbolic real; the non-zero reference is concrete (2, -0.5): with a symbolic reference the relative error is a quotient of solver variables and z3 times out - the result itself is arbitrary (uninterpreted integrand)',
                     'refinement decisions are scripted (P3); the 2-norm is only exercised for scalar outputs where it is abs (sqrt is outside linear arithmetic)',
                     'norm convention of the code: ||.||_p / len**(1/p), i.e. max for inf and mean for p=1'],
-    'outside': ['max_time (wall clock)', 'extend-split and cell strategies', 'more evaluations than the cap allows'],
+    'outside': ['max_time (wall clock)', 'cell strategy', 'more evaluations than the cap allows'],
 }
 
 MANIFEST_ENTRY = {
@@ -125,13 +195,22 @@ def jobs(tier):
     pool = 2 if q else 3
     cfgs = []
     for boundary in (True, False):
-        for ref_kind in ('none', 'sym', 'zero'):
+        for ref_kind in ('none', 'sym', 'zero', 'tiny'):
             for out_len, norm in ((1, np.inf), (2, np.inf), (2, 1)):
+                if q and not boundary and (ref_kind in ('zero', 'tiny') or (out_len, norm) == (2, np.inf)):
+                    continue  # quick tier: without boundary points only the reference-free / ordinary-reference runs
                 cfgs.append((2, 1, 2, 6, boundary, out_len, norm, ref_kind))
     if not q:
         for ref_kind in ('none', 'sym'):
             cfgs.append((2, 1, 3, 6, True, 1, np.inf, ref_kind))
             cfgs.append((2, 1, 2, 3, True, 2, 1, ref_kind))
+    pre = [(2, 1, 2, 6, True, 1, np.inf, 'none')] if q else [(2, 1, 2, 6, True, 1, np.inf, 'none'), (2, 1, 2, 6, False, 2, 1, 'sym'), (2, 1, 2, 3, True, 2, np.inf, 'zero')]
+    for (d, lmin, lmax, v, boundary, out_len, norm, ref_kind) in pre:
+        c = cap - (18 if not boundary else 0)
+        js.append(Job('stop-second-run[d=%d,l=%d-%d,v=%d,%s,out=%d,norm=%s,ref=%s]' % (d, lmin, lmax, v, 'b' if boundary else 'nb', out_len, 'inf' if norm == np.inf else '1', ref_kind),
+                      stop_rules, {'d': d, 'lmin': lmin, 'lmax': lmax, 'version': v, 'boundary': boundary, 'out_len': out_len, 'norm': norm, 'ref_kind': ref_kind,
+                                   'cap': c, 'pool': pool, 'prerun': True},
+                      validate=(5 if q else 2), budget_s=(600 if q else 3000)))
     for (d, lmin, lmax, v, boundary, out_len, norm, ref_kind) in cfgs:
         c = cap if lmax == 2 else 60
         if not boundary:
@@ -139,5 +218,12 @@ def jobs(tier):
         js.append(Job('stop[d=%d,l=%d-%d,v=%d,%s,out=%d,norm=%s,ref=%s]' % (d, lmin, lmax, v, 'b' if boundary else 'nb', out_len, 'inf' if norm == np.inf else '1', ref_kind),
                       stop_rules, {'d': d, 'lmin': lmin, 'lmax': lmax, 'version': v, 'boundary': boundary, 'out_len': out_len, 'norm': norm, 'ref_kind': ref_kind,
                                    'cap': c, 'pool': pool},
+                      validate=(5 if q else 2), budget_s=(600 if q else 3000)))
+    es_cfgs = [(2, 1, 2, 0, 1, 1, np.inf, 'none', 45), (2, 1, 2, 0, 1, 2, 1, 'sym', 45), (2, 1, 2, 1, 2, 2, np.inf, 'tiny', 45), (2, 1, 2, 0, 1, 1, np.inf, 'zero', 45)]
+    if not q:
+        es_cfgs += [(2, 1, 2, v, n, o, nm, rk, 60) for v in (0, 1, 2) for n in (1, 2) for (o, nm) in ((1, np.inf), (2, 1)) for rk in ('none', 'sym')]
+    for (d, lmin, lmax, v, nrbe, out_len, norm, ref_kind, c) in es_cfgs:
+        js.append(Job('stop-es[d=%d,l=%d-%d,v=%d,nrbe=%d,out=%d,norm=%s,ref=%s,cap=%d]' % (d, lmin, lmax, v, nrbe, out_len, 'inf' if norm == np.inf else '1', ref_kind, c), stop_rules_es,
+                      {'d': d, 'lmin': lmin, 'lmax': lmax, 'version': v, 'nrbe': nrbe, 'out_len': out_len, 'norm': norm, 'ref_kind': ref_kind, 'cap': c, 'pool': 2},
                       validate=(5 if q else 2), budget_s=(600 if q else 3000)))
     return js
